@@ -16,6 +16,8 @@ import sys
 import time
 
 ROOT = os.path.dirname(os.path.dirname(os.path.abspath(__file__)))
+# where replays/ and evidence/ are written (the self-test runners point scratch runs elsewhere)
+OUT = os.environ.get("VF_OUT_DIR") or ROOT
 PY = sys.executable
 NPROC = int(os.environ.get("VERIF_NPROC", "16"))
 
@@ -156,8 +158,8 @@ def main(argv=None):
     prop = importlib.import_module("vf.props." + pid.lower())
     work = os.path.join(ROOT, ".work", f"{pid}-{os.getpid()}")
     os.makedirs(work, exist_ok=True)
-    os.makedirs(os.path.join(ROOT, "replays"), exist_ok=True)
-    os.makedirs(os.path.join(ROOT, "evidence"), exist_ok=True)
+    os.makedirs(os.path.join(OUT, "replays"), exist_ok=True)
+    os.makedirs(os.path.join(OUT, "evidence"), exist_ok=True)
     try:
         if a.replay:
             return replay(pid, a.replay, work)
@@ -188,9 +190,9 @@ def replay(pid, path, work):
 
 def check(pid, prop, tier, seed, work):
     t0 = time.time()
-    for f in os.listdir(os.path.join(ROOT, "replays")):
+    for f in os.listdir(os.path.join(OUT, "replays")):
         if f.startswith(pid + "-"):
-            os.unlink(os.path.join(ROOT, "replays", f))
+            os.unlink(os.path.join(OUT, "replays", f))
     findings = [f for f in load_findings() if f["property"] == pid]
     lines = []
     reported_known = set()
@@ -289,7 +291,7 @@ def check(pid, prop, tier, seed, work):
     n = 0
     for k, v in sorted(violations.items()):
         n += 1
-        rp = os.path.join("replays", f"{pid}-{abs(hash(k)) % 10**8:08d}-{n}.json")
+        rp = os.path.join("replays" if OUT == ROOT else os.path.join(OUT, "replays"), f"{pid}-{abs(hash(k)) % 10**8:08d}-{n}.json")
         with open(os.path.join(ROOT, rp), "w") as fh:
             json.dump({"property": pid, "key": k, "case": v["case"], "detail": v["detail"],
                        "count": v.get("count"), "seed": seed, "tier": tier,
@@ -357,7 +359,7 @@ def write_evidence(pid, prop, tier, seed, m, violations, known_hits, inconclusiv
         "wall_s": round(wall, 2),
         "violations": len(violations),
     }
-    with open(os.path.join(ROOT, "evidence", f"{pid}.json"), "w") as fh:
+    with open(os.path.join(OUT, "evidence", f"{pid}.json"), "w") as fh:
         json.dump(ev, fh, indent=1, default=repr)
 
 
